@@ -56,6 +56,17 @@ impl TypeCollector {
         commands: &[CommandInfo],
         all_structs: &HashMap<String, StructInfo>,
     ) -> HashMap<String, StructInfo> {
+        self.collect_used_types_with_events(commands, &[], all_structs)
+    }
+
+    /// Filter only the types used by commands and event payloads, including the types
+    /// they reference through their fields
+    pub fn collect_used_types_with_events(
+        &self,
+        commands: &[CommandInfo],
+        events: &[EventInfo],
+        all_structs: &HashMap<String, StructInfo>,
+    ) -> HashMap<String, StructInfo> {
         let mut used_types = std::collections::HashSet::new();
 
         // Collect types from commands using structured TypeStructure
@@ -79,6 +90,14 @@ impl TypeCollector {
                     &mut used_types,
                 );
             }
+        }
+
+        // Collect types from event payloads
+        for event in events {
+            Self::collect_referenced_types_from_structure(
+                &event.payload_type_structure,
+                &mut used_types,
+            );
         }
 
         // Clone to avoid borrow checker issues
